@@ -4,6 +4,7 @@ Obligations on the lock discipline regenerated from ocimem/*.go.
 -/
 import OciModel.Generated.Locks
 import OciModel.MemConcLemmas
+import OciModel.MemLinLemmas
 
 namespace OciModel.Props.C08
 open OciModel.Generated.Locks
@@ -433,5 +434,200 @@ example : aouts Hid c0 serialSched =
     [.okUnit, .okN 1, .okN 2, .okUnit, .okN 1, .okDesc ⟨octetStream, [9], 1⟩, .err "DIGEST_INVALID",
      .okUnit, .okUnit, .okDesc ⟨octetStream, d1, 1⟩, .okUnit, .okN 1, .okDesc ⟨octetStream, d2, 2⟩, .okUnit] := by
   decide
+
+/-! ### K7 — every concurrent history of the atomic-step model is linearizable
+
+The pieces above (`astep_op_is_step`, `arun_ops_eq_run`: an `op` step is `Mem.step`, a schedule of whole
+operations is their sequential run; `realtime_respected`, `step_positions_injective`: the order of the steps
+is strict and agrees with real time — for a trace that is `WellFormed`, a hypothesis nothing produced) are
+put together here for HISTORIES (`MemLin.lean`): events `inv client op` / `ret client out`; an execution
+(`IsExec`) interleaves, for any number of clients, `inv c op`, `step c` — the atomic step `astep H · (.op op)`
+of `c`'s pending call on the shared state — and `ret c out` with `out` the output of that step;
+`Linearizable H s0 h` (defined on the history alone: `IsLinearization`) asks for a sequential order of the
+completed operations (plus, possibly, operations still open) that respects real time and, run through
+`Mem.step H` from `s0`, yields exactly the recorded outputs. Now the well-formedness that
+`realtime_respected` assumed is a consequence of being an execution (`execution_history_well_formed`, and
+inside the proof the invariant `MemLin.LInv`).
+
+Scope: operations that are ONE atomic step. By `registry_methods_atomic` these are all the methods of
+`*Registry`, and the methods of a chunked writer other than `Commit` (each one critical section of the buffer
+lock, `lockset_ok`); the sequential `wCommit` too is such an operation of the model.
+
+REMARK (not a theorem) — how the chunked `Buffer.Commit`, which is TWO atomic steps, fits. In an execution it
+would contribute `commitCheck r id dig` and, if that answered `okUnit`, later `commitStore r id`.
+  * A `Commit` whose check refuses is a one-step operation, linearized at `commitCheck`: that step has the
+    effect and the output of the sequential `wCommit` (`sequential_commit_refines`, second half).
+  * A `Commit` whose check succeeds has its linearization point at `commitStore`: with the commit lock
+    (`CommitSerial`, from `generated_commit_serialized`) no other `Commit` / `Cancel` of the session falls
+    between its two steps (`MemConc.commitSerial_window`), the store step answers `⟨octet-stream, dig, n⟩` for
+    the digest asked and publishes exactly the checked bytes (`commit_reports_own_digest`), and publishing
+    the blob — at that one step — is the only change `Commit` makes that any operation can observe
+    (`commitCheck` only sets the flag `committed`, which `Mem.step` never reads, and records the snapshot).
+    With nothing between the two steps the pair IS the sequential `wCommit` (`sequential_commit_refines`,
+    first half).
+  * What is NOT proved, and is false as an unqualified statement: that the pair equals `wCommit` placed at
+    `commitStore` when other steps come between. A `Write` to the very session inside the window is not part
+    of the stored blob (the check was made on the snapshot), whereas `wCommit` at the store point would hash
+    the longer buffer and refuse. The sequential specification that `Commit` is linearizable against is
+    therefore "check and snapshot the buffer as of some instant of the call, publish the snapshot at the
+    linearization point" — `wCommit` exactly when no write to the session falls in the window. Proving the
+    general statement (`commit_linearizes_at_store`) needs a commutation lemma — `commitCheck` moves right
+    across every step that does not take the session's `commitMu` and does not write its buffer — over all
+    22 operations; it is not done. `two_step_commit_is_not_wCommit` below is the counterexample, proved. -/
+
+open DualCommit in
+/-- The counterexamples behind the REMARK above (hash = identity, schedules that respect the commit lock).
+(1) NOT `wCommit` at `commitStore`: in `serialSched` the `Commit(d1)` of session `u` checks `[1]`, a `Write [2]`
+to `u` falls in the window, and the store step (position 9) answers `⟨octet-stream, d1, 1⟩`; the sequential
+`wCommit d1` run at that very instant would hash `[1,2]` and answer DIGEST_INVALID.
+(2) NOT `wCommit` at `commitCheck` either: a `ResolveBlob d1` between the two steps answers BLOB_UNKNOWN,
+whereas after a `wCommit` placed at the check it finds the blob. So the blob is published at `commitStore`
+(the linearization point) with the bytes as of `commitCheck`. -/
+theorem two_step_commit_is_not_wCommit :
+    (CommitSerial Hid c0 serialSched ∧
+      (aouts Hid c0 serialSched)[9]? = some (.okDesc ⟨octetStream, d1, 1⟩) ∧
+      (step Hid (arun Hid c0 (serialSched.take 9)).st (.wCommit rD uD d1)).2 = .err "DIGEST_INVALID") ∧
+    (CommitSerial Hid c0 [.commitCheck rD uD d1, .op (.resolveBlob rD d1), .commitStore rD uD] ∧
+      aouts Hid c0 [.commitCheck rD uD d1, .op (.resolveBlob rD d1), .commitStore rD uD] =
+        [.okUnit, .err "BLOB_UNKNOWN", .okDesc ⟨octetStream, d1, 1⟩] ∧
+      aouts Hid c0 [.op (.wCommit rD uD d1), .op (.resolveBlob rD d1)] =
+        [.okDesc ⟨octetStream, d1, 1⟩, .okDesc ⟨octetStream, d1, 1⟩]) := by
+  refine ⟨⟨?_, ?_, ?_⟩, ?_, ?_, ?_⟩ <;> decide
+
+section
+open OciModel.MemLin
+variable (H : Bytes → Bytes)
+
+/-- **Linearizability.** The history of EVERY execution of the atomic-step model — any number of clients,
+any interleaving of their invocations, atomic steps and responses, from any shared state `c0`, for any hash,
+operations possibly still open at the end — is linearizable with respect to the sequential semantics
+`Mem.step H` started in `c0.st`. -/
+theorem atomic_linearizable (c0 : CState) (ex : List XEv) (hex : IsExec H c0 ex) :
+    Linearizable H c0.st (hist ex) := by
+  unfold IsExec at hex
+  cases hx : xrun H (xinit c0) ex with
+  | none => rw [hx] at hex; cases hex
+  | some x =>
+    obtain ⟨lin, hl, _⟩ := exec_linearization H c0 ex hx
+    exact ⟨lin, hl⟩
+
+/-- In particular from the empty registry. -/
+theorem atomic_linearizable_init (imm : Bool) (ex : List XEv) (hex : IsExec H ⟨Mem.init imm, []⟩ ex) :
+    Linearizable H (Mem.init imm) (hist ex) :=
+  atomic_linearizable H ⟨Mem.init imm, []⟩ ex hex
+
+/-- **The linearization points are the atomic steps.** The witness is the order of the `step` events: the
+operations that took their step, in that order (`stepOps ex`), are a linearization `lin` of the history;
+their sequential run from `c0.st` ends in the registry state the execution ends in, and that execution's
+shared state is the one the schedule of those atomic steps gives in `MemConc.arun`. -/
+theorem atomic_linearizable_by_step_order (c0 : CState) (ex : List XEv) {x : XState}
+    (hx : xrun H (xinit c0) ex = some x) :
+    ∃ lin, IsLinearization H c0.st (hist ex) lin ∧ lin.map (·.op) = stepOps ex ∧
+      (run H c0.st (stepOps ex)).1 = x.c.st ∧ x.c = arun H c0 ((stepOps ex).map .op) :=
+  exec_linearization H c0 ex hx
+
+/-- The history of an execution is well formed: every client alternates invocations and responses. -/
+theorem execution_history_well_formed (c0 : CState) (ex : List XEv) (hex : IsExec H c0 ex) :
+    WellFormedH (hist ex) := by
+  unfold IsExec at hex
+  cases hx : xrun H (xinit c0) ex with
+  | none => rw [hx] at hex; cases hex
+  | some x => exact wf_xrun H ex hx _ (fun _ => rfl)
+
+end
+
+/-! A concrete execution (`MemLin.Demo.ex`, three clients, the hash `TwoStep.Htoy`): client 1's `ResolveTag`
+overlaps client 0's push and is ordered BEFORE it although it was called later; client 2's `ResolveTag`
+is called after the push returned and is ordered after it; client 0's second push is still open but has
+taken effect, client 1's `GetTag` is open and has not. -/
+
+open OciModel.MemLin in
+example : IsExec TwoStep.Htoy Demo.c0 Demo.ex := by decide
+
+open OciModel.MemLin in
+/-- its history -/
+example : hist Demo.ex = Demo.h := rfl
+
+open OciModel.MemLin in
+example : WellFormedH Demo.h := by decide
+
+open OciModel.MemLin in
+/-- its linearization order is the order of the steps … -/
+example : stepOps Demo.ex = Demo.lin.map (·.op) := rfl
+
+open OciModel.MemLin in
+/-- … and the sequential run of that order yields exactly the recorded outputs (for the open push: the
+output it is going to return) -/
+example : (run TwoStep.Htoy Demo.c0.st (Demo.lin.map (·.op))).2 = Demo.lin.map (·.out) := by decide
+
+open OciModel.MemLin in
+example : Linearizable TwoStep.Htoy Demo.c0.st Demo.h :=
+  atomic_linearizable TwoStep.Htoy Demo.c0 Demo.ex (by decide)
+
+open OciModel.MemLin in
+/-- the hypotheses of `atomic_linearizable_init` and `atomic_linearizable_by_step_order` on that execution -/
+example : IsExec TwoStep.Htoy ⟨Mem.init false, []⟩ Demo.ex := by decide
+
+open OciModel.MemLin in
+example : ∃ x, xrun TwoStep.Htoy (xinit Demo.c0) Demo.ex = some x :=
+  Option.isSome_iff_exists.1 (show IsExec TwoStep.Htoy Demo.c0 Demo.ex by decide)
+
+open OciModel.MemLin in
+/-- the shared state `Demo.ex` ends in is that of the sequential run of its step order -/
+example : ∀ x, xrun TwoStep.Htoy (xinit Demo.c0) Demo.ex = some x →
+    (run TwoStep.Htoy Demo.c0.st (Demo.lin.map (·.op))).1 = x.c.st := fun _ hx =>
+  (atomic_linearizable_by_step_order TwoStep.Htoy Demo.c0 Demo.ex hx).choose_spec.2.2.1
+
+open OciModel.MemLin in
+/-- `Linearizable` is not vacuous: a history in which a push has returned before `ResolveTag` is called and
+`ResolveTag` nevertheless answers NAME_UNKNOWN has no linearization — so, by `atomic_linearizable`, no
+execution of the atomic-step model produces it. -/
+theorem stale_read_not_linearizable : ¬ Linearizable TwoStep.Htoy Demo.c0.st Demo.bad := by
+  intro ⟨lin, L⟩
+  have hpos : ∀ e ∈ lin, e.inv = 0 ∨ e.inv = 2 := by
+    intro e he
+    obtain ⟨c, hc, _⟩ := L.isInv e he
+    generalize e.inv = i at hc
+    match i, hc with
+    | 0, _ => exact Or.inl rfl
+    | 2, _ => exact Or.inr rfl
+    | 1, hc => simp [Demo.bad] at hc
+    | 3, hc => simp [Demo.bad] at hc
+    | n + 4, hc => simp [Demo.bad] at hc
+  have rA : Resp Demo.bad 0 0 1 (.okDesc TwoStep.d1) :=
+    ⟨by omega, rfl, fun k e h1 h2 => by omega⟩
+  have rB : Resp Demo.bad 2 1 3 (.err "NAME_UNKNOWN") :=
+    ⟨by omega, rfl, fun k e h1 h2 => by omega⟩
+  have hA := L.complete 0 0 _ 1 _ rfl rA
+  have hB := L.complete 2 1 _ 3 _ rfl rB
+  obtain ⟨p, hp⟩ := List.getElem?_of_mem hA
+  obtain ⟨q, hq⟩ := List.getElem?_of_mem hB
+  have hpq := L.realtime p q _ _ hp hq ⟨0, 1, _, rA, rfl, by decide⟩
+  have hn := L.nodup
+  have hs := L.sequential
+  match lin, hp, hq, hpos, hn, hs with
+  | [], hp, _, _, _, _ => simp at hp
+  | [x], hp, hq, _, _, _ =>
+    have hp' := get_lt hp
+    have hq' := get_lt hq
+    simp at hp' hq'
+    omega
+  | [x, y], hp, hq, _, _, hs =>
+    have hp' := get_lt hp
+    have hq' := get_lt hq
+    simp at hp' hq'
+    have h0 : p = 0 := by omega
+    have h1 : q = 1 := by omega
+    subst h0 h1
+    simp at hp hq
+    subst hp hq
+    revert hs
+    decide
+  | x :: y :: z :: rest, _, _, hpos, hn, _ =>
+    have hx := hpos x (by simp)
+    have hy := hpos y (by simp)
+    have hz := hpos z (by simp)
+    simp at hn
+    omega
 
 end OciModel.Props.C08
